@@ -298,3 +298,55 @@ Proof.
   induction r; intros l HT; inversion HT as [|x y l1 l2 Hxy Hl]; subst; cbn [map]; constructor; auto.
   rewrite Hxy, Ef. unfold counter. field. auto.
 Qed.
+
+(* the sync time finally used is the documented one: the first origin0 + k * wrap that is at most one wrap period
+   before the start of the sensor record *)
+Theorem final_origin_documented f o :
+  0 < wrap_period f o -> spec_origin_ok (sensor_start f) (origin0 f o) (wrap_period f o) (final_origin f o).
+Proof.
+  intro Hw. destruct (origin_steps_loop (sensor_start f) (origin0 f o) (wrap_period f o) Hw) as (H0 & H1 & H2).
+  exists (origin_steps (sensor_start f) (origin0 f o) (wrap_period f o)). split; auto. split; [reflexivity|]. split.
+  - unfold final_origin. apply Qnot_lt_le. intro C. apply origin_continue_iff in C. congruence.
+  - intros j Hj. apply origin_continue_iff. auto.
+Qed.
+
+(* ------------------------------------------------------------------------------------------------ *)
+(* non-vacuity                                                                                       *)
+Definition ok_eqb (r : rres) (ts : list Q) (og : Q) : bool :=
+  match r with
+  | ROk l g => Qeq_bool g og && (List.length l =? List.length ts)%nat
+               && forallb (fun p => Qeq_bool (fst p) (snd p)) (combine l ts)
+  | RErr _ => false
+  end.
+(* a counter of 2^48 samples at 2^45 samples / s wraps every 8 s; sync time 100; dumps every 2 s from 101; the counter
+   wraps between the third and fourth dump (stored 99 = 107 - 8); CBF dumps of 0.5 s, timestamps at the start *)
+Definition ex_file (sens : list (Q * Q)) : rfile :=
+  {| rf_ts := [101; 103; 105; 99; 101]; rf_rows := 5; rf_dump := 2; rf_cbf_dump := Some (1 # 2); rf_ref := None;
+     rf_scale := inject_Z (2 ^ 45); rf_sync := 100; rf_sens := sens |}.
+Definition ex_open (sc og : option Q) : ropen := {| ro_scale := sc; ro_origin := og; ro_offset := 0 |}.
+
+Lemma resyn_examples :
+  (* the wrap is undone *)
+  ok_eqb (open_v3 (ex_file []) (ex_open None None)) [101 + (1#4); 103 + (1#4); 105 + (1#4); 107 + (1#4); 109 + (1#4)] 100 = true
+  (* a sensor record of 50 s starting at 150 (longer than last + dump - first = 2 s of the STORED timestamps): sync
+     time moved forward by 6 wrap periods; the record of 1 s before it in the cache is passed over *)
+  /\ ok_eqb (open_v3 (ex_file [(120, 121); (150, 200)]) (ex_open None None))
+            [149 + (1#4); 151 + (1#4); 153 + (1#4); 155 + (1#4); 157 + (1#4)] 148 = true
+  (* time_scale = 2^44 (half the rate): intervals double, wrap period 16 s: the decrease of 12 s is still a wrap *)
+  /\ ok_eqb (open_v3 (ex_file []) (ex_open (Some (inject_Z (2 ^ 44))) None))
+            [102 + (1#4); 106 + (1#4); 110 + (1#4); 114 + (1#4); 118 + (1#4)] 100 = true
+  (* time_origin = 1000 *)
+  /\ ok_eqb (open_v3 (ex_file []) (ex_open None (Some 1000)))
+            [1001 + (1#4); 1003 + (1#4); 1005 + (1#4); 1007 + (1#4); 1009 + (1#4)] 1000 = true
+  (* the error branches *)
+  /\ open_v3 {| rf_ts := [101; 103]; rf_rows := 3; rf_dump := 2; rf_cbf_dump := Some (1 # 2); rf_ref := None;
+                rf_scale := 1; rf_sync := 100; rf_sens := [] |} (ex_open None None) = RErr 3
+  /\ open_v3 {| rf_ts := [101; 103]; rf_rows := 2; rf_dump := 2; rf_cbf_dump := None; rf_ref := None;
+                rf_scale := 1; rf_sync := 100; rf_sens := [] |} (ex_open None None) = RErr 2
+  /\ open_v3 {| rf_ts := [101; 103]; rf_rows := 2; rf_dump := 2; rf_cbf_dump := None; rf_ref := Some false;
+                rf_scale := 1; rf_sync := 100; rf_sens := [] |} (ex_open None None) = RErr 1
+  (* centroid timestamps need no CBF dump period; a duplicate final dump is dropped *)
+  /\ ok_eqb (open_v3 {| rf_ts := [101; 103; 103]; rf_rows := 3; rf_dump := 2; rf_cbf_dump := None; rf_ref := Some true;
+                        rf_scale := 1; rf_sync := 100; rf_sens := [] |} {| ro_scale := None; ro_origin := None; ro_offset := 1#2 |})
+            [101 + (1#2); 103 + (1#2)] 100 = true.
+Proof. vm_compute. repeat split; reflexivity. Qed.
